@@ -48,8 +48,9 @@ Section Model.
   Definition absT (x : T) : T := absv O x.
   Definition perp_weights (edges : list T) (qi w : T) : list T :=
     let ulim := sqrtT (qi * qi + w * w) in
-    let u := map (fun e => if ltb O e (absT qi) then zero O
-                           else if ltb O ulim e then ulim * ulim - qi * qi
+    (* the two mask assignments in the order the code makes them: the later one (beyond u_limit) wins *)
+    let u := map (fun e => if ltb O ulim e then ulim * ulim - qi * qi
+                           else if ltb O e (absT qi) then zero O
                            else e * e - qi * qi) edges in
     map (fun d => d / w) (diffs (map sqrtT u)).
 
